@@ -321,7 +321,7 @@ def real_case(name, kind, d, k, digest):
         if data is None:
             return None
     elif kind == "wrong-key":
-        Q2 = rc.ladder_mul(d + 1, G, p, a)
+        Q2 = rc.ladder_mul(d + 1 if d + 1 < n else d - 1, G, p, a)
         vk = VerifyingKey.from_public_point(
             ec.PointJacobi(c.curve, Q2[0], Q2[1], 1, n), c)
         data = raw(r, s)
